@@ -287,16 +287,10 @@ func pseudoShown(e *einfo, p *Pseudo, rootNone bool) bool {
 	if rootNone {
 		return false
 	}
-	if e.n.Tag == "colgroup" && e.cd == "table-column-group" {
+	if e.n.Tag == "colgroup" && e.cd == "table-column-group" && !hasColKid(e.n) {
 		// HTML: a <colgroup> without <col> children stands for `span` columns; webrender builds
 		// them in place of any generated content
-		hasCol := false
-		for _, k := range e.n.Kids {
-			hasCol = hasCol || k.Tag == "col"
-		}
-		if !hasCol {
-			return false
-		}
+		return false
 	}
 	d := pseudoDisplay(p)
 	if d == "none" {
@@ -321,6 +315,16 @@ func isTabularContainer(d string) bool {
 	switch d {
 	case "table", "inline-table", "table-row-group", "table-header-group", "table-footer-group", "table-row":
 		return true
+	}
+	return false
+}
+
+// hasColKid: the element has a <col> child element (HTML §4.9.3: then its span attribute is not used).
+func hasColKid(n *Node) bool {
+	for _, k := range n.Kids {
+		if k.Tag == "col" {
+			return true
+		}
 	}
 	return false
 }
